@@ -90,6 +90,15 @@ func vfCheckCacheInvariant(w *vfWorld) {
 		}
 	}
 	zzvf.Assert(rescache.VFEvictionQueueLen(w.s.cache) == zero, "entry-awaits-eviction-iff-unused")
+	// the cache gauges follow the entries: one resource per entry, one
+	// subscription per use (so both read zero once nothing is held)
+	entries, uses := 0, int64(0)
+	for _, e := range rescache.VFEntries(w.s.cache) {
+		entries++
+		uses += e.Count
+	}
+	zzvf.Assert(w.gauges.CacheResources.Value() == float64(entries), "cache-resources-gauge-equals-entries")
+	zzvf.Assert(w.gauges.CacheSubscriptions.Value() == float64(uses), "cache-subscriptions-gauge-equals-uses")
 	// a connection keeps a subscription object (and with it a use of the
 	// cache entry) only while something counts on it: a direct subscription,
 	// a request in flight, or a reference from another held resource
